@@ -17,10 +17,6 @@
                                   (full strength since /repo 6df2c0f: a shadowed prefix is skipped);
                                   C09_prefix_iff: for a real namespace, Some(_) iff bound
     C09_fullname_string           full_name is the spelling of name_ref's prefix
-    C09_fullname_element_partial / _attribute_partial / _false_…   the reported prefix resolves back
-                                  to the name's namespace by the rule for its kind, outside the two
-                                  defects (no-namespace element under a default namespace; attribute
-                                  whose namespace is the default namespace)
     C09_node_name_ref             node_name_ref reports the node's own name with name_ref's prefix
     C09_inherited_sound           inherited_prefixes ⊆ bindings in scope at the parent
     C09_unresolved_recursive      unresolved_namespaces = a recursive function of the declarations inside the
@@ -39,18 +35,22 @@
                                   included, every prefix of a namespace) whose namespace is reported
                                   unresolved; each prefix once
     C09_inherited_iff             … = bindings of the parent's scope that some name of the subtree needs
-    C09_fullname_element_real     GUARD-FREE, element name in a real namespace: Ok(prefix) resolves back to the
-                                  expanded name; Ok(_) iff some prefix (default included) is bound to the
-                                  namespace; otherwise exactly MissingPrefix(ns)
-    C09_fullname_element_iff      elements, exact boundary: an Ok answer is wrong iff the name is in no namespace
-                                  and a default namespace is in scope
-    C09_fullname_attribute_iff    attributes, exact boundary: an Ok answer is wrong iff the name is in a real
-                                  namespace and the EMPTY prefix is reported; C09_fullname_attribute_guard_not_needed:
-                                  the guard of _attribute_partial is sufficient, not necessary (closed witness)
-    C09_prefix_first              WHICH prefix: for a real namespace, the prefix of the first pair that
-                                  namespaces_in_scope yields with that namespace
-    C09_fullname_attribute_boundary   input-level boundary of the attribute finding: misreported iff the first
-                                  pair namespaces_in_scope yields with the attribute's namespace is the default prefix
+    C09_prefix_first / C09_namespace_prefix_first   WHICH prefix: for a real namespace, the prefix of the
+                                  first pair namespaces_in_scope yields with that namespace (attribute
+                                  nodes: the first such pair with a NON-EMPTY prefix)
+  Qualified names, full strength since /repo 7303420 + 84c8828 (no guards, every tree, every node):
+    C09_nameref_attribute / C09_fullname_attribute   context = attribute node (any name): Ok(p) ⇒ p non-empty
+                                  for a real namespace and p reads back (attribute rule: unprefixed = no
+                                  namespace) as the name's namespace; Err ⇔ real namespace with no NON-EMPTY
+                                  prefix bound to it, and then MissingPrefix(ns)
+    C09_nameref_element / C09_fullname_element       context = element, its OWN name: Ok(p) ⇒ p reads back
+                                  (element rule: unprefixed = default namespace if any) as the name's
+                                  namespace; Err ⇔ (real namespace, no prefix at all bound) or (no namespace,
+                                  default namespace in scope), and then MissingPrefix(ns) / MissingPrefix("")
+    C09_nameref_other_name / C09_fullname_other_name context not an attribute node, name not its own element
+                                  name: exactly prefix_for_namespace (default prefix included); a
+                                  no-namespace name is never refused
+    C09_fullname                  the property as worded, for node_name_ref on every element / attribute node
 -/
 import XotModel.Lemmas.Scope
 import XotModel.Lemmas.ScopeStack
@@ -582,5 +582,58 @@ example : inheritedPrefixes c09UnresEnv (.node (.element 5) [.node (.namespace 2
 /-- `<a xmlns:p="A"><A:b/></a>`: element `b` in `A`, bound only by prefix: `Ok(p)`; unbound `B`: error. -/
 example : nameRefChain c09UnresEnv [.node (.element 0) [], c09UnresTree] 0 = .ok 2 := by rfl
 example : nameRefChain c09UnresEnv [.node (.element 1) [], c09UnresTree] 1 = .error (.missingPrefix 3) := by rfl
+
+/-! #### Qualified names: the two former findings, closed.  Names: 0 = `{A}x`, 1 = `b`, 2 = `c` (no
+    namespace), 3 = `{A}a`; namespace `A` = 2; prefixes `""` = 0, `xml` = 1, `p` = 2. -/
+def c09QnEnv : Env :=
+  { namespaces := [[], ['X'], ['A']], prefixes := [[], ['x', 'm', 'l'], ['p']],
+    names := [(['x'], 2), (['b'], 0), (['c'], 0), (['a'], 2)] }
+def c09Attr : Tree := .node (.attribute 0 []) []
+def c09El (name : Nat) (decls : List (Nat × Nat)) (kids : List Tree) : Tree :=
+  .node (.element name) (decls.map (fun d => .node (.namespace d.1 d.2) []) ++ kids)
+
+/-- `<a xmlns="A" A:x=""/>` at the attribute (the former witness): `A` is bound only as default
+    namespace, which an attribute cannot use: `MissingPrefix(A)` (was: `Ok("")`, i.e. `x`). -/
+example : nameRefChain c09QnEnv [c09Attr, c09El 3 [(0, 2)] [c09Attr]] 0 = .error (.missingPrefix 2) := by rfl
+example : fullName c09QnEnv (c09El 3 [(0, 2)] [c09Attr]) [1] 0 = some (.error (.missingPrefix 2)) := by rfl
+/-- Default AND prefix, both declaration orders, and across ancestor levels: the prefix `p`. -/
+example : nameRefChain c09QnEnv [c09Attr, c09El 3 [(0, 2), (2, 2)] [c09Attr]] 0 = .ok 2 := by rfl
+example : nameRefChain c09QnEnv [c09Attr, c09El 3 [(2, 2), (0, 2)] [c09Attr]] 0 = .ok 2 := by rfl
+example : nameRefChain c09QnEnv [c09Attr, c09El 3 [(0, 2)] [c09Attr], c09El 1 [(2, 2)] []] 0 = .ok 2 := by rfl
+example : nameRefChain c09QnEnv [c09Attr, c09El 3 [(2, 2)] [c09Attr], c09El 3 [(0, 2)] []] 0 = .ok 2 := by rfl
+example : fullName c09QnEnv (c09El 3 [(0, 2), (2, 2)] [c09Attr]) [2] 0 = some (.ok ['p', ':', 'x']) := by rfl
+example : resolveQName [c09Attr, c09El 3 [(0, 2), (2, 2)] [c09Attr]] true 2 = some 2 := by decide
+/-- a no-namespace name at an attribute node: unprefixed. -/
+example : nameRefChain c09QnEnv [c09Attr, c09El 3 [(0, 2)] [c09Attr]] 2 = .ok 0 := by rfl
+
+/-- `<a xmlns="A"><b/></a>` at `b` (in no namespace; the former witness), default namespace at
+    distance 0, 1, 2: `MissingPrefix("")` (was: `Ok("")`, which there means `{A}b`). -/
+example : nameRefChain c09QnEnv [c09El 1 [(0, 2)] []] 1 = .error (.missingPrefix 0) := by rfl
+example : nameRefChain c09QnEnv [c09El 1 [] [], c09El 3 [(0, 2)] []] 1 = .error (.missingPrefix 0) := by rfl
+example : nameRefChain c09QnEnv [c09El 1 [] [], c09El 3 [] [], c09El 3 [(0, 2)] []] 1 =
+    .error (.missingPrefix 0) := by rfl
+example : fullName c09QnEnv (c09El 3 [(0, 2)] [c09El 1 [] []]) [1] 1 = some (.error (.missingPrefix 0)) := by rfl
+/-- … with `xmlns=""` on the element or in between: unprefixed, and that reads back as no namespace. -/
+example : nameRefChain c09QnEnv [c09El 1 [(0, 0)] [], c09El 3 [(0, 2)] []] 1 = .ok 0 := by rfl
+example : nameRefChain c09QnEnv [c09El 1 [] [], c09El 2 [(0, 0)] [], c09El 3 [(0, 2)] []] 1 = .ok 0 := by rfl
+example : resolveQName [c09El 1 [] [], c09El 2 [(0, 0)] [], c09El 3 [(0, 2)] []] false 0 = some 0 := by decide
+/-- an element in `A` under `xmlns="A"`: the empty prefix, read back by the element rule as `A`;
+    nothing bound: `MissingPrefix(A)`. -/
+example : nameRefChain c09QnEnv [c09El 3 [(0, 2)] []] 3 = .ok 0 := by rfl
+example : resolveQName [c09El 3 [(0, 2)] []] false 0 = some 2 := by decide
+example : nameRefChain c09QnEnv [c09El 3 [] []] 3 = .error (.missingPrefix 2) := by rfl
+
+/-- Other names at an element `b` under `xmlns="A"`: the no-namespace name `c` is NOT refused, and
+    the attribute name `{A}x` queried with the element as context gets the default prefix. -/
+example : nameRefChain c09QnEnv [c09El 1 [] [], c09El 3 [(0, 2)] []] 2 = .ok 0 := by rfl
+example : nameRefChain c09QnEnv [c09El 1 [] [], c09El 3 [(0, 2)] []] 0 = .ok 0 := by rfl
+example : fullName c09QnEnv (c09El 3 [(0, 2)] [c09El 1 [] []]) [1] 0 = some (.ok ['x']) := by rfl
+
+/-- `node_name_ref` on the attribute of `<a xmlns="A" xmlns:p="A" p:x=""/>`. -/
+example : nodeNameRef c09QnEnv (c09El 3 [(0, 2), (2, 2)] [c09Attr]) [2] = some (.ok (some (0, 2))) := by rfl
+
+/-- `namespace_prefix(…, A, non_empty)` on `<a xmlns="A" xmlns:p="A"/>`: `""` without, `p` with. -/
+example : namespacePrefix (c09El 3 [(0, 2), (2, 2)] []) [] 2 false = some (some 0) := by decide
+example : namespacePrefix (c09El 3 [(0, 2), (2, 2)] []) [] 2 true = some (some 2) := by decide
 
 end XotModel.Props
